@@ -1,27 +1,33 @@
 """Shared machinery of the block-buffer checks C03 (byte-string semantics) and
 C02 (copy-on-write isolation; block part).
 
-spec -> code : behaviours of spec/MCBlockBuf.tla (calls + predicted results)
-               are replayed on harness/replay_block.c (real ubuf_block /
-               uref_block API on ubuf_block_mem) and compared result by result;
-code -> spec : every execution (replayed behaviours and seeded random scripts)
-               is turned into an ndjson trace and validated by
-               spec/BlockBuf_Trace.tla.
-Python holds no oracle: it formats commands, parses result lines and compares
-them with what TLC predicted (equality, honouring the "not specified" flags
-the specification itself put in the behaviour).
+spec -> code : behaviours of spec/MCBlockBuf.tla / spec/MCBlockSeg.tla (calls +
+               the results the specification predicts) are replayed on
+               harness/replay_block.c (real ubuf_block / uref_block API on
+               ubuf_block_mem) and compared result by result;
+code -> spec : every execution (replayed behaviours, counterexamples of the
+               negative model variants, seeded random scripts) is turned into an
+               ndjson trace and validated by spec/BlockBuf_Trace.tla.
+Python holds no oracle: it formats commands, parses result lines, compares them
+with what TLC predicted (equality, honouring the "not specified" flags the
+specification itself put in the behaviour) and asks TLC to judge every
+recorded execution.  The random generator keeps a rough size estimate per
+handle only to choose arguments near the interesting boundaries; commands
+that turn out to be malformed (dead handle) are answered "bad" by the harness
+and dropped from the trace.
 """
-import json, os, time
+import json, os, re, threading, time
 import vlib
 
 FILL = 14
 SRCS = ["replay_block.c", "lib/upipe/ubuf_block_mem.c", "lib/upipe/ubuf_mem_common.c",
         "lib/upipe/umem_alloc.c", "lib/upipe/umem_pool.c", "lib/upipe/uref_std.c",
         "lib/upipe/udict_inline.c"]
+TRACE = ("BlockBuf_Trace", "BlockBuf_Trace.cfg")
 
-# manager configurations (argv of the harness).  "direct": behaviours of a
-# model with Pre = pre can be compared result by result (align = 0: the room in
-# front of the data is exactly the manager's prepend).
+# manager configurations (argv of the harness).  Behaviours of a model with
+# Pre = pre can be compared result by result with a configuration whose
+# align is 0 (the room in front of the data is exactly the manager's prepend).
 CONFIGS = [
     {"name": "p0_pre2", "args": {"pool": 0, "pre": 2, "app": 0, "align": 0}},
     {"name": "p4_pre2_app3_upool", "args": {"pool": 4, "pre": 2, "app": 3, "align": 0, "umem": "pool"}},
@@ -29,10 +35,14 @@ CONFIGS = [
     {"name": "p2_pre2_align16", "args": {"pool": 2, "pre": 2, "app": 15, "align": 16, "aoff": 0}},
     {"name": "p0_pre1_align4_uref", "args": {"pool": 0, "pre": 1, "app": 1, "align": 4, "aoff": -1, "api": "uref"}},
     {"name": "p3_pre2_uref", "args": {"pool": 3, "pre": 2, "app": 0, "align": 0, "api": "uref"}},
+    {"name": "p2_pre1", "args": {"pool": 2, "pre": 1, "app": 2, "align": 0}},
 ]
+CFG = {c["name"]: c for c in CONFIGS}
 
 MUTATORS = {"alloc", "dup", "splice", "split", "copy", "merge", "append", "insert", "delete",
             "truncate", "resize", "prepend", "wmap", "poke", "free"}
+OBSERVERS = {"size", "read", "rd1", "peek", "extract", "iovec", "slin", "scan", "find",
+             "compare", "equal", "match", "audit"}
 CFUNC = {"alloc": "ubuf_block_alloc", "dup": "ubuf_dup", "splice": "ubuf_block_splice",
          "split": "ubuf_block_split", "copy": "ubuf_block_copy", "merge": "ubuf_block_merge",
          "append": "ubuf_block_append", "insert": "ubuf_block_insert", "delete": "ubuf_block_delete",
@@ -43,6 +53,7 @@ CFUNC = {"alloc": "ubuf_block_alloc", "dup": "ubuf_dup", "splice": "ubuf_block_s
          "slin": "ubuf_block_size_linear", "scan": "ubuf_block_scan", "find": "ubuf_block_find",
          "compare": "ubuf_block_compare", "equal": "ubuf_block_equal", "match": "ubuf_block_match",
          "audit": "ubuf_block_extract"}
+NORES = {"r": "crash", "n": -1, "b": [], "ps": [], "pe": [], "pb": []}
 
 
 # ------------------------------------------------------------------ commands
@@ -90,13 +101,45 @@ def cmd_text(c):
     raise vlib.ToolError("unknown op " + op)
 
 
+def text_cmd(line):
+    """inverse of cmd_text (replay files store the text form)"""
+    t = line.split()
+    op = t[0]
+    hn = lambda s: int(s[1:])
+    if op == "alloc":
+        return cmd(op, [hn(t[1]), int(t[2])], dec(t[3]))
+    if op == "dup":
+        return cmd(op, [hn(t[1]), hn(t[2])])
+    if op in ("splice", "copy"):
+        return cmd(op, [hn(t[1]), hn(t[2]), int(t[3]), int(t[4])])
+    if op == "split":
+        return cmd(op, [hn(t[1]), hn(t[2]), int(t[3])])
+    if op in ("merge", "delete", "resize", "read", "rd1", "peek", "extract", "iovec", "poke", "scan"):
+        return cmd(op, [hn(t[1]), int(t[2]), int(t[3])])
+    if op in ("append", "equal"):
+        return cmd(op, [hn(t[1]), hn(t[2])])
+    if op in ("insert", "compare"):
+        return cmd(op, [hn(t[1]), int(t[2]), hn(t[3])])
+    if op in ("truncate", "prepend", "wmap", "slin"):
+        return cmd(op, [hn(t[1]), int(t[2])])
+    if op in ("free", "size", "audit"):
+        return cmd(op, [hn(t[1])])
+    if op == "find":
+        return cmd(op, [hn(t[1]), int(t[2])], [int(x) for x in t[3:]])
+    if op == "match":
+        return cmd(op, [hn(t[1])], dec(t[2]), dec(t[3]))
+    raise vlib.ToolError("unknown command line " + line)
+
+
 def parse_result(c, line):
     """result line of the harness -> fields r, n, b, ps, pe, pb"""
     op = c["op"]
     t = line.split()
     res = {"r": t[0] if t else "crash", "n": -1, "b": [], "ps": [], "pe": [], "pb": []}
-    if not t or t[0] == "bad":
-        raise vlib.ToolError("replay_block refused %r -> %r" % (cmd_text(c), line))
+    if not t:
+        raise vlib.ToolError("replay_block: empty result for %r" % cmd_text(c))
+    if t[0] == "bad":
+        return res
     try:
         if t[0] == "okfree":
             for i in range(1, len(t), 2):
@@ -127,12 +170,6 @@ def parse_result(c, line):
     return res
 
 
-def event(c, res):
-    e = {"e": c["op"], "a": c["a"], "ib": c["ib"], "ib2": c["ib2"]}
-    e.update(res)
-    return e
-
-
 def cfg_argv(cfg):
     return ["%s=%s" % (k, v) for k, v in cfg["args"].items()] + ["fill=%d" % FILL]
 
@@ -142,33 +179,78 @@ def reset_event(cfg):
             "cfg": cfg["name"]}
 
 
+class Exe:
+    """one execution of the real code: manager configuration, commands, and
+    (after the run) one result per command"""
+    __slots__ = ("cfg", "script", "results", "source", "expect", "cut")
+
+    def __init__(self, cfg, script, source, expect=None):
+        self.cfg = cfg
+        self.script = script
+        self.source = source
+        self.expect = expect
+        self.results = None
+        self.cut = None           # quarantine: number of effective commands kept
+
+    def effective(self):
+        """(command, result) pairs that are part of the trace: malformed
+        commands (answered "bad": nothing was called) are left out"""
+        out = [(c, r) for c, r in zip(self.script, self.results) if r["r"] != "bad"]
+        return out if self.cut is None else out[:self.cut]
+
+    def events(self):
+        ev = [reset_event(self.cfg)]
+        for c, r in self.effective():
+            if r["r"] in ("crash", "hang"):
+                e = {"e": r["r"], "a": c["a"], "ib": [], "ib2": [], "during": cmd_text(c)}
+                e.update(NORES)
+                e["r"] = r["r"]
+            else:
+                e = {"e": c["op"], "a": c["a"], "ib": c["ib"], "ib2": c["ib2"]}
+                e.update(r)
+            ev.append(e)
+        return ev
+
+    def text(self):
+        return [cmd_text(c) for c, _ in self.effective()]
+
+
 # ------------------------------------------------------------------- harness
 class Harness:
-    def __init__(self, ctx):
+    def __init__(self, ctx, san="asan"):
         self.ctx = ctx
-        self.bin = ctx.cc("replay_block", SRCS, san="asan")
+        self.bin = ctx.cc("replay_block", SRCS, san=san)
         self.env = {"ASAN_OPTIONS": "detect_leaks=0:abort_on_error=0:exitcode=66",
-                    "UBSAN_OPTIONS": "print_stacktrace=1:halt_on_error=1"}
+                    "UBSAN_OPTIONS": "print_stacktrace=1:halt_on_error=1",
+                    "REPLAY_ALARM_S": "4" if ctx.quick else "10"}
         self.commands_run = 0
         self.crashes = []
+        self.not_executed = 0
+        self.max_deaths = 3       # per batch: a broken tree must give a verdict, not a crawl
+        self.lock = threading.Lock()
 
-    def run_batch(self, cfg, scripts):
-        """scripts: list of command lists.  Returns, per script, the list of
-        result dicts (the last one may be {"r": "crash"} if the process died)."""
+    def _run_chunk(self, cfg, scripts):
+        """scripts: list of command lists (one manager configuration).  Returns,
+        per script, the list of result dicts (the last one may be a crash if
+        the process died there; the commands after it are not run)."""
         out = [None] * len(scripts)
         todo = list(range(len(scripts)))
+        deaths = 0
         while todo:
+            if deaths >= self.max_deaths:
+                break                 # the rest is not executed (and not judged)
             lines = []
             for k in todo:
                 lines.append("reset")
                 lines += [cmd_text(c) for c in scripts[k]]
             r = self.ctx.run([self.bin] + cfg_argv(cfg), input="\n".join(lines) + "\n",
-                             timeout=600, env=self.env)
+                             timeout=900, env=self.env)
             if r.returncode == 124:
                 raise vlib.ToolError("replay_block timed out (%s)" % cfg["name"])
             got = r.stdout.splitlines()
             pos = 0
             died_at = None
+            ncmd = 0
             for idx, k in enumerate(todo):
                 if pos >= len(got) or got[pos] != "reset":
                     died_at = idx
@@ -176,21 +258,29 @@ class Harness:
                 pos += 1
                 res = []
                 for c in scripts[k]:
-                    if pos >= len(got) or got[pos] in ("end",):
+                    if pos >= len(got) or got[pos] in ("end", "reset"):
                         break
                     res.append(parse_result(c, got[pos]))
                     pos += 1
-                self.commands_run += len(res)
+                ncmd += len(res)
                 if len(res) < len(scripts[k]):
                     # the process died inside this execution
                     if r.returncode == 0:
                         raise vlib.ToolError("replay_block: short output without a crash")
-                    res.append({"r": "crash", "n": -1, "b": [], "ps": [], "pe": [], "pb": []})
-                    self.crashes.append({"cfg": cfg["name"], "stderr": (r.stderr or "")[-1500:]})
+                    dead = dict(NORES)
+                    dead["r"] = "hang" if r.returncode == 5 else "crash"
+                    res.append(dead)
+                    deaths += 1
+                    with self.lock:
+                        self.crashes.append({"cfg": cfg["name"], "kind": dead["r"], "rc": r.returncode,
+                                             "during": cmd_text(scripts[k][len(res) - 1]),
+                                             "stderr": (r.stderr or "")[-1200:]})
                     out[k] = res
                     died_at = idx + 1
                     break
                 out[k] = res
+            with self.lock:
+                self.commands_run += ncmd
             if died_at is None:
                 if r.returncode != 0:
                     raise vlib.ToolError("replay_block failed rc=%d after all commands: %s"
@@ -201,26 +291,56 @@ class Harness:
             todo = todo[died_at:]
         return out
 
-    def run_one(self, cfg, script):
-        return self.run_batch(cfg, [script])[0]
+    def execute(self, exes, jobs=4):
+        """run the executions (grouped by configuration, in parallel chunks)"""
+        groups = {}
+        for e in exes:
+            groups.setdefault(e.cfg["name"], []).append(e)
+        work = []
+        for name, lst in groups.items():
+            step = max(1, min(4000, (len(lst) + jobs - 1) // jobs))
+            for b in range(0, len(lst), step):
+                work.append((CFG[name] if name in CFG else lst[0].cfg, lst[b:b + step]))
+        err = []
+        sem = threading.Semaphore(jobs)
 
-
-def to_events(cfg, script, results):
-    ev = [reset_event(cfg)]
-    for c, r in zip(script, results):
-        if r["r"] == "crash":
-            ev.append({"e": "crash", "a": c["a"], "ib": [], "ib2": [], "r": "crash", "n": -1,
-                       "b": [], "ps": [], "pe": [], "pb": [], "during": cmd_text(c)})
-        else:
-            ev.append(event(c, r))
-    return ev
+        def one(cfg, part):
+            with sem:
+                try:
+                    res = self._run_chunk(cfg, [e.script for e in part])
+                    for e, r in zip(part, res):
+                        e.results = r
+                except Exception as ex:
+                    err.append(ex)
+        ths = [threading.Thread(target=one, args=w) for w in work]
+        for t in ths:
+            t.start()
+        for t in ths:
+            t.join()
+        if err:
+            raise err[0] if isinstance(err[0], vlib.ToolError) else vlib.ToolError("harness driver: %r" % err[0])
+        done = [e for e in exes if e.results is not None]
+        with self.lock:
+            self.not_executed += len(exes) - len(done)
+        return done
 
 
 # ------------------------------------------------------- behaviours from TLC
-def beh_to_script(b, nh):
-    """TLC behaviour (hist records + final contents) -> commands, expectations"""
+FIELDS = ("op", "args", "ib", "ib2", "res", "n", "b", "nx", "bx", "u")
+
+
+def rec_of(x):
+    """behaviour step as emitted by TLC (array, see MCBlockBuf!Emit) -> dict"""
+    if isinstance(x, dict):
+        return x
+    return dict(zip(FIELDS, x))
+
+
+def beh_to_exe(b, nh, cfg, source):
+    """TLC behaviour (hist records + final contents) -> execution + expectations"""
     script, expect = [], []
-    for rec in b["hist"]:
+    for x in b["hist"]:
+        rec = rec_of(x)
         script.append(cmd(rec["op"], rec["args"], rec["ib"], rec["ib2"]))
         expect.append(rec)
     for h in range(nh):
@@ -228,22 +348,24 @@ def beh_to_script(b, nh):
         fin = b["fin"][h]
         if fin == [-1]:
             expect.append({"res": "none", "n": -1, "b": [], "nx": True, "bx": True, "u": False})
+        elif fin == [-2]:
+            expect.append({"res": "any", "n": -1, "b": [], "nx": False, "bx": False, "u": True})
         else:
             expect.append({"res": "ok", "n": len(fin), "b": fin, "nx": True, "bx": True, "u": False})
-    return script, expect
+    return Exe(cfg, script, source, expect)
 
 
-def compare(expect, results):
+def compare(e):
     """-> index of the first result that differs from the prediction, or None.
     Stops (None) where the real code took the other admissible branch of a
     call whose arguments have no byte-string meaning."""
-    for i, (x, r) in enumerate(zip(expect, results)):
-        if r["r"] == "crash":
+    for i, (x, r) in enumerate(zip(e.expect, e.results)):
+        if r["r"] in ("crash", "hang", "bad"):
             return i
         if x["res"] == "any":
             continue
         if x["u"] and r["r"] != x["res"]:
-            if r["r"] in ("err", "okfree"):
+            if r["r"] in ("err", "okfree", "busy"):
                 return None      # other admissible branch: the model went elsewhere
             return i
         if r["r"] != x["res"]:
@@ -255,12 +377,205 @@ def compare(expect, results):
     return None
 
 
-# ------------------------------------------------------------ key / slicing
+# -------------------------------------------------------------- random scripts
+class Gen:
+    """seeded generator of command scripts.  mode "c03": every call, offsets
+    and sizes inside, at the boundaries and outside the block; mode "c02":
+    the sharing calls of C02 with arguments inside the block, write mappings
+    and frequent audits of every handle."""
+
+    def __init__(self, rng, mode, nh, maxlen, pre):
+        self.rng = rng
+        self.mode = mode
+        self.nh = nh
+        self.maxlen = maxlen
+        self.pre = pre
+        self.sz = {}          # handle -> estimated size (argument choice only)
+
+    def off(self, n, inside=False):
+        r = self.rng
+        if n > 0 and (inside or r.chance(4, 5)):
+            o = r.below(n)
+            return o - n if r.chance(1, 4) else o
+        return r.choice([n, n + 1, -n - 1, -n - 2, n + 3, 0, -1])
+
+    def range_(self, n, inside=False):
+        r = self.rng
+        o = self.off(n, inside)
+        oo = o + n if o < 0 else o
+        left = n - oo if 0 <= oo <= n else 0
+        c = r.below(10)
+        if c < 2:
+            s = -1
+        elif c < 8 or inside:
+            s = r.below(left + 1) if left >= 0 else 0
+            if c < 4 and left > 0:
+                s = min(left, 1 + r.below(3))
+        else:
+            s = left + 1 + r.below(2)
+        return o, s
+
+    def data(self, n):
+        return [self.rng.below(4) if self.rng.chance(2, 3) else self.rng.below(14) for _ in range(n)]
+
+    def script(self, length):
+        r = self.rng
+        c02 = self.mode == "c02"
+        out = []
+        self.sz = {}
+        sz = self.sz
+        live = lambda: sorted(sz)
+        free = lambda: [h for h in range(self.nh) if h not in sz]
+        if c02:
+            ops = (["dup"] * 5 + ["splice"] * 5 + ["split"] * 3 + ["insert"] * 4 + ["append"] * 3 + ["delete"] * 4 +
+                   ["resize"] * 3 + ["truncate"] * 2 + ["poke"] * 12 + ["wmap"] * 3 + ["free"] * 4 +
+                   ["alloc"] * 4 + ["merge"] * 1 + ["copy"] * 1 + ["auditall"] * 8 + ["extract"] * 3)
+        else:
+            ops = (["alloc"] * 5 + ["dup"] * 3 + ["splice"] * 4 + ["split"] * 3 + ["copy"] * 2 + ["merge"] * 2 +
+                   ["append"] * 4 + ["insert"] * 5 + ["delete"] * 5 + ["truncate"] * 3 + ["resize"] * 4 +
+                   ["prepend"] * 4 + ["poke"] * 3 + ["wmap"] * 1 + ["free"] * 3 +
+                   ["size"] * 2 + ["read"] * 3 + ["rd1"] * 8 + ["peek"] * 4 + ["extract"] * 4 + ["iovec"] * 3 +
+                   ["slin"] * 3 + ["scan"] * 3 + ["find"] * 3 + ["compare"] * 3 + ["equal"] * 2 + ["match"] * 2)
+        while len(out) < length:
+            lv = live()
+            fr = free()
+            op = r.choice(ops)
+            if not lv or (len(lv) < 2 and r.chance(1, 3)):
+                op = "alloc"
+            if op in ("alloc", "dup", "splice", "split", "copy") and not fr:
+                op = "free"
+            h = r.choice(lv) if lv else 0
+            n = sz.get(h, 0)
+            ins = c02
+            if op == "alloc":
+                d = r.choice(fr)
+                k = r.choice([0, 1, 2, 3, 4, 5, 6, 8, 12]) if not c02 else r.choice([2, 3, 4, 6, 8])
+                out.append(cmd("alloc", [d, k], self.data(k)))
+                sz[d] = k
+            elif op == "dup":
+                d = r.choice(fr)
+                out.append(cmd("dup", [d, h]))
+                sz[d] = n
+            elif op == "splice":
+                d = r.choice(fr)
+                o, s = self.range_(n, ins)
+                out.append(cmd("splice", [d, h, o, s]))
+                oo = o + n if o < 0 else o
+                if 0 <= oo < n and (s == -1 or oo + s <= n):
+                    sz[d] = n - oo if s == -1 else s
+            elif op == "split":
+                d = r.choice(fr)
+                o = self.off(n, ins)
+                out.append(cmd("split", [d, h, o]))
+                oo = o + n if o < 0 else o
+                if 0 <= oo < n:
+                    sz[h], sz[d] = oo, n - oo
+            elif op in ("copy", "merge"):
+                if r.chance(1, 3) and not c02:
+                    sk = -r.below(3) - 1
+                else:
+                    sk = r.below(n + 1) if n or not c02 else 0
+                s = -1 if r.chance(1, 2) else r.below(n + 3)
+                if c02:
+                    s = -1 if r.chance(1, 2) else max(1, r.below(n - sk + 1))
+                ns = n - sk if s == -1 else s
+                okd = sk <= n and ns > max(0, -sk)
+                if op == "copy":
+                    d = r.choice(fr)
+                    out.append(cmd("copy", [d, h, sk, s]))
+                    if okd:
+                        sz[d] = ns
+                else:
+                    out.append(cmd("merge", [h, sk, s]))
+                    if okd:
+                        sz[h] = ns
+            elif op in ("append", "insert"):
+                others = [g for g in lv if g != h]
+                if not others:
+                    continue
+                g = r.choice(others)
+                if n + sz[g] > self.maxlen:
+                    continue
+                if op == "append":
+                    out.append(cmd("append", [h, g]))
+                    sz[h] = n + sz.pop(g)
+                else:
+                    o = self.off(n, ins)
+                    out.append(cmd("insert", [h, o, g]))
+                    oo = o + n if o < 0 else o
+                    if 0 <= oo < n:
+                        sz[h] = n + sz.pop(g)
+            elif op == "delete":
+                o, s = self.range_(n, ins)
+                out.append(cmd("delete", [h, o, s]))
+                oo = o + n if o < 0 else o
+                if 0 <= oo < n and (s == -1 or oo + s <= n):
+                    sz[h] = oo if s == -1 else n - s
+            elif op == "truncate":
+                t = r.below(n + 1) if (ins or r.chance(5, 6)) else n + 1 + r.below(2)
+                out.append(cmd("truncate", [h, t]))
+                if t <= n:
+                    sz[h] = t
+            elif op == "resize":
+                if n and (ins or r.chance(4, 5)):
+                    sk = r.below(n + 1)
+                    if r.chance(1, 4):
+                        sk -= n
+                else:
+                    sk = r.choice([n + 1, n + 2, -n - 1, 0, n])
+                ss = sk + n if sk < 0 else sk
+                left = n - ss if 0 <= ss <= n else 0
+                s = -1 if r.chance(1, 3) else (r.below(left + 1) if (ins or r.chance(5, 6)) else left + 1)
+                out.append(cmd("resize", [h, sk, s]))
+                if 0 <= ss <= n and (s == -1 or ss + s <= n):
+                    sz[h] = n - ss if s == -1 else s
+            elif op == "prepend":
+                k = r.choice([0, 1, 1, 2, 2, 3, self.pre, self.pre + 1])
+                out.append(cmd("prepend", [h, k]))
+                if k <= self.pre:
+                    sz[h] = n + k          # estimate only (the room may have been used already)
+            elif op in ("wmap", "poke"):
+                o = self.off(n, ins and r.chance(19, 20))
+                out.append(cmd("wmap", [h, o]) if op == "wmap" else cmd("poke", [h, o, r.below(16)]))
+            elif op == "free":
+                if len(lv) <= 1 and r.chance(2, 3):
+                    continue
+                out.append(cmd("free", [h]))
+                sz.pop(h, None)
+            elif op == "size":
+                out.append(cmd("size", [h]))
+            elif op in ("read", "rd1", "peek", "extract", "iovec"):
+                o, s = self.range_(n, ins)
+                if op == "rd1" and r.chance(1, 2):
+                    s = 1
+                out.append(cmd(op, [h, o, s]))
+            elif op == "slin":
+                out.append(cmd("slin", [h, self.off(n)]))
+            elif op == "scan":
+                out.append(cmd("scan", [h, r.below(n + 2), r.below(4)]))
+            elif op == "find":
+                k = r.choice([2, 2, 3, 4])
+                out.append(cmd("find", [h, r.below(n + 2)], [r.below(4) for _ in range(k)]))
+            elif op == "compare":
+                g = r.choice(lv)
+                out.append(cmd("compare", [h, r.below(n + 2), g]))
+            elif op == "equal":
+                out.append(cmd("equal", [h, r.choice(lv)]))
+            elif op == "match":
+                k = r.below(4)
+                out.append(cmd("match", [h], [r.below(4) for _ in range(k)], [r.choice([15, 15, 3, 1, 0]) for _ in range(k)]))
+            elif op == "auditall":
+                for g in lv:
+                    out.append(cmd("audit", [g]))
+        for g in range(self.nh):
+            out.append(cmd("audit", [g]))
+        return out
+
+
+# ------------------------------------------------------------ slicing / keys
 def handles_of(c):
     op, a = c["op"], c["a"]
-    if op in ("dup", "splice", "split", "copy"):
-        return [a[0], a[1]]
-    if op in ("append", "equal"):
+    if op in ("dup", "splice", "split", "copy", "append", "equal"):
         return [a[0], a[1]]
     if op in ("insert", "compare"):
         return [a[0], a[2]]
@@ -275,155 +590,571 @@ def slice_script(script, upto):
     for i in range(upto - 1, -1, -1):
         hs = set(handles_of(script[i]))
         if hs & cone:
-            cone |= hs
+            if script[i]["op"] in MUTATORS:
+                cone |= hs
             keep.append(i)
     keep.reverse()
     return [script[i] for i in keep]
 
 
-def symptom_key(script, events, line):
-    """stable-ish key for an unexplained rejection: culprit function and
-    symptom.  line = 1-based index in events (events[0] is Reset)."""
-    idx = line - 2          # index in script
-    if idx < 0 or idx >= len(script):
-        return "unknown;line%d" % line
-    c = script[idx]
-    ev = events[line - 1] if line - 1 < len(events) else {}
-    if ev.get("e") == "crash":
-        return "%s;sanitizer" % CFUNC.get(c["op"], c["op"])
-    if c["op"] in ("wmap", "poke"):
-        return "ubuf_block_write;%s-contrary-to-owners" % ev.get("r", "?")
-    if c["op"] in MUTATORS:
-        if ev.get("r") == "okfree":
-            return "%s;out-of-range accepted, result inconsistent" % CFUNC[c["op"]]
-        return "%s;result %s" % (CFUNC[c["op"]], ev.get("r", "?"))
-    # an observer disagrees: blame the last structural call on one of its handles
-    cone = set(handles_of(c))
-    for i in range(idx - 1, -1, -1):
-        p = script[i]
-        if p["op"] in MUTATORS and p["op"] not in ("wmap",) and set(handles_of(p)) & cone:
-            pe = events[i + 1]
-            if pe.get("r") in ("err", "busy"):
-                return "%s;changed-after-error" % CFUNC[p["op"]]
-            what = "read" if c["op"] != "size" else "size"
-            return "%s;%s-after-%s" % (CFUNC[p["op"]], what, p["op"])
-    return "%s;result" % CFUNC.get(c["op"], c["op"])
-
-
-# --------------------------------------------------------------- quarantine
-# A defect that has been reproduced and reported (by its key) is kept from
-# polluting the rest of the exploration: the trigger is neutralised in the
-# executions so that everything else is still checked.
-def quarantine(keys, script, results):
-    """-> (script, results) truncated / filtered according to reported keys"""
-    s2, r2 = [], []
-    for c, r in zip(script, results):
-        if "ubuf_block_splice;out-of-range accepted, result inconsistent" in keys \
-                and c["op"] == "splice" and r["r"] == "okfree":
-            continue                      # no effect on the model state: skip the line
-        s2.append(c)
-        r2.append(r)
-        if c["op"] == "delete" and r["r"] == "err" and "ubuf_block_delete;changed-after-error" in keys:
-            break
-        if c["op"] == "resize" and r["r"] == "err" and "ubuf_block_resize;changed-after-error" in keys:
-            break
-        if c["op"] == "prepend" and r["r"] == "ok" and c["a"][1] > 0 \
-                and "ubuf_block_prepend;read-after-prepend" in keys:
-            break
-    return s2, r2
+def make_key(culprit, cres, own_line, probe_op, probe_res):
+    """stable key of a defect: the function whose call left the block wrong
+    and the class of the symptom - no arguments, no data"""
+    f = CFUNC.get(culprit["op"], culprit["op"])
+    if own_line:
+        if cres["r"] == "hang":
+            return "%s;does-not-return" % f
+        if cres["r"] == "crash":
+            return "%s;sanitizer-or-crash" % f
+        if cres["r"] == "okfree":
+            return "%s;out-of-range-accepted;inconsistent-result" % f
+        if culprit["op"] in ("wmap", "poke"):
+            return "%s;%s-contrary-to-owners" % (f, cres["r"])
+        if culprit["op"] in OBSERVERS:
+            return "%s;wrong-result" % f
+        return "%s;unexpected-result-%s" % (f, cres["r"])
+    if probe_res in ("crash", "hang"):
+        return "%s;%s-afterwards" % (f, probe_res)
+    what = "size" if probe_op == "size" else "content"
+    if cres["r"] in ("err", "busy"):
+        return "%s;reported-error-but-changed" % f
+    if culprit["op"] in ("wmap", "poke"):
+        return "%s;write-visible-elsewhere-or-lost" % f
+    return "%s;wrong-%s-afterwards" % (f, what)
 
 
 # -------------------------------------------------------------------- judge
-class Judge:
-    """collects executions, validates them with BlockBuf_Trace, reproduces and
-    reports rejections."""
+def has_negative_offset(c):
+    op, a = c["op"], c["a"]
+    if op in ("splice", "copy", "split"):
+        return a[2] < 0
+    if op in ("merge", "delete", "resize", "read", "rd1", "peek", "extract", "iovec", "insert",
+              "wmap", "poke", "slin"):
+        return a[1] < 0
+    return False
 
-    def __init__(self, ctx, harness, trace_cfg="BlockBuf_Trace.cfg"):
+
+class Judge:
+    """validates executions with BlockBuf_Trace; every rejection is localised
+    (which call left which block wrong: prefixes of the execution followed by
+    one read at one offset, each re-executed on the real code and judged by
+    TLC), reported under a stable key, and its trigger is quarantined so that
+    the rest of the exploration is still judged."""
+
+    def __init__(self, ctx, harness, max_keys=8, budget_s=600, jobs=3):
         self.ctx = ctx
         self.h = harness
-        self.trace_cfg = trace_cfg
-        self.reported = set()
-        self.pool = []            # (cfg, script, results, source)
-        self.direct_mismatch = []
+        self.rules = []           # (when, op, r): "before" | "after"
+        self.reported = {}
+        self.max_keys = max_keys
+        self.budget_s = budget_s
+        self.jobs = jobs
+        self.spent = 0.0          # seconds spent analysing rejections
+        self.accepted = 0         # executions accepted in full (possibly shortened by quarantine)
+        self.events = 0
+        self.shortened = 0
+        self.nrun = 0
+        self.gave_up = False
+        self.lock = threading.Lock()
+        self.rejected = set()     # id() of executions the trace specification rejected
 
-    def validate(self, items, tag):
-        hists = [to_events(cfg, s, r) for cfg, s, r, _ in items]
-        if not hists:
-            return []
-        return self.ctx.validate_histories("BlockBuf_Trace", self.trace_cfg, hists, tag=tag,
-                                           max_reject=6, timeout=1500)
+    def validate(self, exes, tag, max_reject=2, jobs=None):
+        """-> ([(index, line, invariants)] of rejected executions, set of
+        indices not looked at because a chunk stopped after max_reject
+        rejections); executions are validated in parallel chunks"""
+        if not exes:
+            return [], set()
+        jobs = jobs or self.jobs
+        n = len(exes)
+        nev = sum(len(e.script) for e in exes)
+        k = max(1, min(jobs, nev // 4000 + 1))
+        step = (n + k - 1) // k
+        out, err, unproc = [], [], set()
 
-    def still_fails(self, cfg, script):
-        res = self.h.run_one(cfg, script)
-        ev = to_events(cfg, script, res)
-        rej = self.ctx.validate_histories("BlockBuf_Trace", self.trace_cfg, [ev], tag="re")
-        self.ctx.traces -= 0 if rej else 1        # re-runs are not new evidence
-        return (rej[0][1] if rej else None), res, ev
-
-    def minimise(self, cfg, script, line, budget_s=40):
-        """script rejected at events line `line` -> smaller script that is still
-        rejected (slice, then greedy removal while time allows)."""
-        t0 = time.time()
-        upto = min(line - 2, len(script) - 1)
-        best = script[:upto + 1]
-        cand = slice_script(script, upto)
-        if len(cand) < len(best):
-            l2, _, _ = self.still_fails(cfg, cand)
-            if l2 is not None:
-                best = cand[:l2 - 1]
-        i = len(best) - 2
-        while i >= 0 and time.time() - t0 < budget_s and len(best) > 2:
-            cand = best[:i] + best[i + 1:]
+        def one(base, part, t):
             try:
-                l2, _, _ = self.still_fails(cfg, cand)
-            except vlib.ToolError:
-                l2 = None        # the shortened script is malformed (uses a missing handle)
-            if l2 is not None:
-                best = cand[:l2 - 1]
-                i = min(i, len(best) - 1)
-            i -= 1
-        return best
+                rej = self.ctx.validate_histories(TRACE[0], TRACE[1], [e.events() for e in part], tag=t,
+                                                  max_reject=max_reject, timeout=1700)
+                out.extend((base + i, line, inv) for i, line, inv in rej)
+                if len(rej) >= max_reject:
+                    unproc.update(range(base + rej[-1][0] + 1, base + len(part)))
+            except Exception as ex:
+                err.append(ex)
+        ths = []
+        for b in range(0, n, step):
+            with self.lock:
+                self.nrun += 1
+                t = "%s_%d" % (tag, self.nrun)
+            ths.append(threading.Thread(target=one, args=(b, exes[b:b + step], t)))
+        for t in ths:
+            t.start()
+        for t in ths:
+            t.join()
+        if err:
+            raise err[0] if isinstance(err[0], vlib.ToolError) else vlib.ToolError("trace validation driver: %r" % err[0])
+        return sorted(out), unproc
 
-    def report(self, cfg, script, line, source, inv):
-        """an execution rejected by the trace specification at `line`"""
-        l2, res, ev = self.still_fails(cfg, script)
-        if l2 is None:
-            raise vlib.ToolError("rejected execution did not reproduce (flaky harness?) cfg=%s" % cfg["name"])
-        small = self.minimise(cfg, script, l2)
-        l3, res3, ev3 = self.still_fails(cfg, small)
-        if l3 is None:
-            small, l3, res3, ev3 = script, l2, res, ev
-        key = symptom_key(small, ev3, l3)
-        txt = [cmd_text(c) for c in small[:l3 - 1]]
-        got = ev3[l3 - 1] if l3 - 1 < len(ev3) else {}
-        what = ("%s: real ubuf_block_mem (%s) diverges from the byte-string/sharing specification at "
-                "'%s' -> %s; script: %s" %
-                (key, cfg["name"], txt[-1] if txt else "?",
-                 json.dumps({k: got.get(k) for k in ("r", "n", "b", "ps", "pe", "pb")}), "; ".join(txt)))
-        self.reported.add(key)
-        self.ctx.violation(key, what, {"harness_args": cfg_argv(cfg), "script": txt, "trace": ev3[:l3],
-                                       "source": source, "violated": inv})
+    def validate_all(self, exes, tag):
+        """single TLC run over many short executions -> {index: rejected line}"""
+        if not exes:
+            return {}
+        with self.lock:
+            self.nrun += 1
+            t = "%s_%d" % (tag, self.nrun)
+        rej = self.ctx.validate_histories_1pass(TRACE[0], "BlockBuf_Trace_tol.cfg", [e.events() for e in exes],
+                                                tag=t, timeout=1700)
+        return {i: line for i, line, _ in rej}
+
+    # -- quarantine
+    def apply_rules(self, e):
+        """-> True if a rule shortened the execution"""
+        if e.source.startswith("counterexample"):
+            return False
+        eff = [(c, r) for c, r in zip(e.script, e.results) if r["r"] != "bad"]
+        lim = len(eff) if e.cut is None else e.cut
+        for i, (c, r) in enumerate(eff[:lim]):
+            for when, op, rr in self.rules:
+                if c["op"] == op and r["r"] == rr:
+                    cut = i if when == "before" else i + 1
+                    if cut < lim:
+                        e.cut = cut
+                        return True
+                    return False
+        return False
+
+    # -- localisation
+    def probes_for(self, c, sizes, p):
+        out = []
+        for h in sorted(set(handles_of(c))):
+            n = sizes.get((p, h))
+            if n is None:
+                continue
+            out.append(cmd("size", [h]))
+            for o in range(min(n, 48)):
+                out.append(cmd("rd1", [h, o, 1]))
+            out.append(cmd("audit", [h]))
+        return out
+
+    def candidates(self, cfg, pre, source):
+        """prefixes of `pre` (ending with a call that changes something, or
+        complete) followed by one probe, in the order in which they are judged"""
+        qs = []
+        for p in range(1, len(pre) + 1):
+            if pre[p - 1]["op"] in MUTATORS and pre[p - 1]["op"] != "free":
+                for h in sorted(set(handles_of(pre[p - 1]))):
+                    qs.append((p, h, Exe(cfg, pre[:p] + [cmd("size", [h])], "size query")))
+        self.h.execute([q[2] for q in qs])
+        sizes = {}
+        for p, h, q in qs:
+            r = q.results[-1] if q.results is not None and len(q.results) == p + 1 else None
+            if r and r["r"] == "ok" and 0 <= r["n"] <= 4096:
+                sizes[(p, h)] = r["n"]
+        cands = []
+        for p in range(1, len(pre) + 1):
+            c = pre[p - 1]
+            if p == len(pre):
+                cands.append((p, None, Exe(cfg, pre[:p], source)))
+            if c["op"] in MUTATORS and c["op"] != "free":
+                for pr in self.probes_for(c, sizes, p):
+                    cands.append((p, pr, Exe(cfg, pre[:p] + [pr], source)))
+        return cands
+
+    def first_rejected(self, cands, tag):
+        if not cands:
+            return None
+        self.h.execute([c[2] for c in cands])
+        cands = [c for c in cands if c[2].results is not None]
+        rej = self.validate_all([c[2] for c in cands], tag)
+        if not rej:
+            return None
+        k = min(rej)
+        return cands[k] + (rej[k], [])
+
+    def localise(self, e, line):
+        eff = e.effective()
+        idx = min(line - 2, len(eff) - 1)
+        if idx < 0:
+            raise vlib.ToolError("trace rejected at the Reset line")
+        full = [c for c, _ in eff[:idx + 1]]
+        sl = slice_script(full, idx)
+        cands = []
+        if len(sl) < len(full):
+            cands += self.candidates(e.cfg, sl, e.source)
+        if len(full) <= 60 or not cands:
+            cands += self.candidates(e.cfg, full, e.source)
+        hit = self.first_rejected(cands, "loc")
+        if hit is None and len(full) > 60:
+            hit = self.first_rejected(self.candidates(e.cfg, full, e.source), "locf")
+        return hit
+
+    def minimise(self, cfg, script, source, passes=4):
+        """drop commands of the prefix while the last line is still the
+        rejected one (each pass: every single removal, judged in one TLC run).
+        -> (script, executed execution of it or None if nothing was removed)"""
+        best, bexe = list(script), None
+        for _ in range(passes):
+            idxs = list(range(len(best) - 1))
+            cands = [Exe(cfg, best[:i] + best[i + 1:], source) for i in idxs]
+            if not cands:
+                break
+            self.h.execute(cands)
+            live = [(i, c) for i, c in zip(idxs, cands) if c.results is not None]
+            idxs, cands = [i for i, _ in live], [c for _, c in live]
+            rej = self.validate_all(cands, "min")
+            ok = [k for k, i in enumerate(idxs)
+                  if rej.get(k) == len(best) and not any(r["r"] == "bad" for r in cands[k].results)]
+            if not ok:
+                break
+            gone = set(idxs[k] for k in ok)
+            trial = [c for i, c in enumerate(best) if i not in gone]
+            x = Exe(cfg, trial, source)
+            self.h.execute([x])
+            if len(ok) > 1 and x.results is not None and not any(r["r"] == "bad" for r in x.results) and \
+                    self.validate_all([x], "min").get(0) == len(trial) + 1:
+                best, bexe = trial, x
+            else:
+                k = ok[-1]
+                best, bexe = cands[k].script, cands[k]
+        return best, bexe
+
+    def report(self, e, line, inv):
+        hit = self.localise(e, line)
+        if hit is None:
+            raise vlib.ToolError("rejected execution did not reproduce (flaky harness?) cfg=%s script=%s"
+                                 % (e.cfg["name"], "; ".join(e.text()[:line - 1])))
+        p, probe, x, l2, inv2 = hit
+        eff = x.effective()
+        own = l2 - 2 <= p - 1
+        if own:
+            culprit, cres = eff[l2 - 2]
+            wit = [c for c, _ in eff[:l2 - 1]]
+        else:
+            culprit, cres = eff[p - 1]
+            wit = [c for c, _ in eff[:l2 - 1]]
+        ev = x.events()
+        bad = ev[l2 - 1] if l2 - 1 < len(ev) else {}
+        key = make_key(culprit, cres, own, probe["op"] if probe else None, bad.get("r"))
+        # smallest script with the same last line; what it needs names the context
+        need = (not self.ctx.quick) or any(has_negative_offset(c) for c in wit[:-1]) or \
+            e.source.startswith("counterexample")
+        xs, small, l3 = x, wit, l2
+        if need and len(wit) > 2:
+            sm, smx = self.minimise(e.cfg, wit, e.source)
+            if smx is not None:
+                xs, small, l3 = smx, sm, len(sm) + 1
+        evs = xs.events()
+        bad = evs[l3 - 1] if l3 - 1 < len(evs) else bad
+        rj = [(0, l3, inv2)]
+        ci = max(i for i, c in enumerate(small[:l3 - 1]) if c["op"] == culprit["op"]) if any(
+            c["op"] == culprit["op"] for c in small[:l3 - 1]) else len(small) - 1
+        if any(has_negative_offset(c) for c in small[:ci]):
+            key += ";after-negative-offset-access"
+        txt = xs.text()[:l3 - 1]
+        what = ("%s: real %s (manager %s) leaves the byte-string / sharing specification at '%s' -> %s%s; "
+                "script: %s" % (key, "uref_block API" if e.cfg["args"].get("api") == "uref" else "ubuf_block API",
+                                e.cfg["name"], txt[-1] if txt else "?",
+                                json.dumps({k: bad.get(k) for k in ("r", "n", "b", "ps", "pe", "pb")}),
+                                (" (violated: %s)" % ",".join(rj[0][2])) if rj[0][2] else "", "; ".join(txt)))
+        rule = ("before" if own else "after", culprit["op"], cres["r"])
+        with self.lock:
+            if rule not in self.rules:
+                self.rules.append(rule)
+            if key not in self.reported:
+                self.reported[key] = {"script": txt, "cfg": e.cfg["name"], "source": e.source}
+                self.ctx.violation(key, what, {"harness_args": cfg_argv(e.cfg), "cfg": e.cfg, "script": txt,
+                                               "trace": evs[:l3], "source": e.source, "violated": rj[0][2]})
         return key
 
-    def judge(self, items, tag, max_rounds=8):
-        """validate all executions; every rejection is reproduced, minimised,
-        reported, its trigger quarantined and the rest re-validated."""
-        items = list(items)
+    def over(self):
+        return len(self.reported) >= self.max_keys or self.spent > self.budget_s
+
+    def judge(self, exes, tag, max_rounds=16):
+        pend = list(exes)
+        for e in pend:
+            self.apply_rules(e)
         for rnd in range(max_rounds):
-            rej = self.validate(items, "%s%d" % (tag, rnd))
+            rej, unproc = self.validate(pend, tag, max_reject=3)
+            rejidx = set(i for i, _, _ in rej)
+            # looked at and not rejected: accepted for good (a prefix of an accepted execution is accepted)
+            for i, e in enumerate(pend):
+                if i not in rejidx and i not in unproc:
+                    self.accepted += 1
+                    self.events += len(e.effective())
+                    self.shortened += 1 if e.cut is not None else 0
             if not rej:
                 return
-            done = set()
+            again = []
+            todo = []
             for idx, line, inv in rej:
-                cfg, script, results, source = items[idx]
-                self.report(cfg, script, line, source, inv)
-                done.add(idx)
-            # quarantine the reported triggers and look at what is left
-            nxt = []
-            for i, (cfg, script, results, source) in enumerate(items):
-                s2, r2 = quarantine(self.reported, script, results)
-                if i in done and len(s2) == len(script):
-                    continue          # reported, no quarantine rule applies: drop it
-                nxt.append((cfg, s2, r2, source))
-            items = nxt
+                e = pend[idx]
+                self.rejected.add(id(e))
+                if self.apply_rules(e):
+                    again.append(e)       # a rule found meanwhile covers it: judged again
+                elif not self.over():
+                    todo.append((e, line, inv))
+            # the rejected executions are analysed side by side
+            err = []
+
+            def one(e, line, inv):
+                try:
+                    self.report(e, line, inv)
+                except Exception as ex:
+                    err.append(ex)
+            ths = [threading.Thread(target=one, args=t) for t in todo[:6]]
+            tr = time.time()
+            for t in ths:
+                t.start()
+            for t in ths:
+                t.join()
+            self.spent += time.time() - tr
+            if err:
+                raise err[0] if isinstance(err[0], vlib.ToolError) else vlib.ToolError("report driver: %r" % err[0])
+            for e, line, inv in todo:
+                if self.apply_rules(e):
+                    again.append(e)
+            rest = [pend[i] for i in sorted(unproc)]
+            for e in rest:
+                self.apply_rules(e)
+            pend = again + rest
+            if self.over() and pend:
+                self.gave_up = True
+                self.ctx.notes.append("reporting limit reached: %d executions were not judged one by one" % len(pend))
+                return
+            if not pend:
+                return
+        self.gave_up = True
         self.ctx.notes.append("more rejected executions than rounds of reporting: remaining ones not analysed")
+
+
+# ------------------------------------------------------------------- TLC jobs
+class Models:
+    """runs TLC jobs in the background (a few JVMs side by side); results are
+    collected and judged in the main thread"""
+
+    def __init__(self, ctx, jobs, parallel=3):
+        self.ctx = ctx
+        self.jobs = jobs
+        self.res = {}
+        self.err = []
+        self.done = {j["cfg"]: threading.Event() for j in jobs}
+        self.sem = threading.Semaphore(parallel)
+        self.threads = [threading.Thread(target=self._one, args=(j,)) for j in jobs]
+        for t in self.threads:
+            t.start()
+
+    def _one(self, j):
+        with self.sem:
+            try:
+                if not self.err:
+                    self.res[j["cfg"]] = self.ctx.tlc(
+                        j["module"], j["cfg"] + ".cfg", workers=j.get("workers", 1), coverage=j.get("cov", False),
+                        heap=j.get("heap", "4g"), timeout=j.get("timeout", 900), count=False, name=j["cfg"],
+                        simulate=j.get("simulate"), depth=j.get("depth"))
+            except Exception as ex:
+                self.err.append(ex)
+            finally:
+                self.done[j["cfg"]].set()
+
+    def get(self, cfg):
+        self.done[cfg].wait()
+        if self.err:
+            self.join()
+            ex = self.err[0]
+            raise ex if isinstance(ex, vlib.ToolError) else vlib.ToolError("TLC driver: %r" % ex)
+        return self.res[cfg]
+
+    def join(self):
+        for t in self.threads:
+            t.join()
+
+
+def check_models(ctx, models, jobs):
+    """verdicts on the models themselves (never a verdict on the code)"""
+    models.join()
+    if models.err:
+        ex = models.err[0]
+        raise ex if isinstance(ex, vlib.ToolError) else vlib.ToolError("TLC driver: %r" % ex)
+    negs = {}
+    for j in jobs:
+        r = models.res[j["cfg"]]
+        kind = j["kind"]
+        if kind in ("pos", "cov"):
+            ctx.model_must_hold(r, j["cfg"])
+            if kind == "pos":
+                ctx.states += r.distinct
+                ctx.transitions += r.generated
+            if j.get("cov"):
+                missing = [a for a in j["need"] if r.coverage.get(a, (0, 0))[1] == 0]
+                if missing:
+                    raise vlib.ToolError("vacuity: %s: actions never taken: %s" % (j["cfg"], missing))
+        elif kind == "covbeh":
+            ctx.model_must_hold(r, j["cfg"])
+            seen = set()
+            for b in parse_beh(r, "BEH"):
+                for x in b["hist"]:
+                    seen.add(rec_of(x)["op"])
+            missing = [a for a in j["need"] if a not in seen]
+            if missing:
+                raise vlib.ToolError("vacuity: %s: calls never taken: %s" % (j["cfg"], missing))
+        elif kind == "neg":
+            if not r.violated:
+                raise vlib.ToolError("vacuity: negative configuration %s not rejected by TLC" % j["cfg"])
+            negs[j["cfg"]] = r.violated
+        elif kind in ("emit", "sim"):
+            if r.violated or r.rc != 0:
+                raise vlib.ToolError("behaviour emission %s failed: %s\n%s" % (j["cfg"], r.violated, r.out[-1500:]))
+    ctx.extra["negative_configurations_rejected"] = negs
+    ctx.exhaustive = True
+
+
+def parse_beh(res, tag):
+    out = []
+    for t, payload in res.printed:
+        if t != tag:
+            continue
+        payload = payload.strip()
+        if payload.startswith('"') and payload.endswith('"'):
+            body = payload[1:-1].replace('\\"', '"').replace("\\\\", "\\")
+            out.append(json.loads(body))
+    return out
+
+
+# ------------------------------------------------------------------ the check
+DIRECT = {2: ["p0_pre2", "p4_pre2_app3_upool", "p3_pre2_uref"], 0: ["p1_pre0"], 1: ["p2_pre1"]}
+INDIRECT = ["p2_pre2_align16", "p0_pre1_align4_uref"]
+
+
+def exes_of_behaviours(behs, pre, nh, source, also_indirect=8):
+    """every behaviour on one manager whose room is the model's Pre (result by
+    result comparison), one in `also_indirect` also on an aligning manager
+    (judged by the trace specification only)"""
+    out = []
+    names = DIRECT[pre]
+    for i, b in enumerate(behs):
+        out.append(beh_to_exe(b, nh, CFG[names[i % len(names)]], source))
+        if also_indirect and i % also_indirect == 0 and pre == 2:
+            x = beh_to_exe(b, nh, CFG[INDIRECT[(i // also_indirect) % len(INDIRECT)]], source)
+            x.expect = None
+            out.append(x)
+    return out
+
+
+def run_check(ctx, plan):
+    """plan: dict built by checks/c03.py or checks/c02.py"""
+    t0 = time.time()
+    quick = ctx.quick
+    models = Models(ctx, plan["jobs"], parallel=plan.get("parallel", 3))
+    try:
+        h = Harness(ctx)
+        judge = Judge(ctx, h, max_keys=plan.get("max_keys", 8), budget_s=plan["judge_budget_s"],
+                      jobs=plan.get("validate_jobs", 3))
+        # ---- code -> spec: seeded random scripts (generated and run while TLC works)
+        rng = vlib.Rng(ctx.seed)
+        rnd = []
+        for i in range(plan["random_scripts"]):
+            cfg = CONFIGS[i % len(CONFIGS)]
+            g = Gen(rng, plan["mode"], plan["nh"], plan["maxlen"], cfg["args"].get("pre", 0))
+            rnd.append(Exe(cfg, g.script(plan["script_len"]), "random seed=%d #%d" % (ctx.seed, i)))
+        rnd = h.execute(rnd)
+        # ---- spec -> code: counterexamples of the negative variants first
+        cex = []
+        for j in plan["jobs"]:
+            if j["kind"] == "neg" and j.get("cex"):
+                r = models.get(j["cfg"])
+                for b in parse_beh(r, "CEX"):
+                    for name in DIRECT[2][:1 if quick else 3]:
+                        x = beh_to_exe(b, j["nh"], CFG[name], "counterexample of model variant %s (%s)" % (j["cfg"], b.get("bad")))
+                        cex.append(x)
+        cex = h.execute(cex)
+        judge.judge(cex, "cex")
+        ctx.extra["counterexample_of_negative_variant_rejected_on_real_code"] = {
+            x.source + " @" + x.cfg["name"]: id(x) in judge.rejected for x in cex}
+        # ---- spec -> code: behaviours emitted by TLC (BFS and simulation)
+        beh_exes = []
+        nbeh = 0
+        for j in plan["jobs"]:
+            if j["kind"] in ("emit", "sim"):
+                r = models.get(j["cfg"])
+                behs = parse_beh(r, "BEH")
+                if not behs:
+                    raise vlib.ToolError("TLC emitted no behaviour for %s" % j["cfg"])
+                nbeh += len(behs)
+                src = "TLC %s %s" % ("BFS" if j["kind"] == "emit" else "simulation seed=%d" % ctx.seed, j["cfg"])
+                beh_exes += exes_of_behaviours(behs, j["pre"], j["nh"], src, also_indirect=plan.get("also_indirect", 8))
+        beh_exes = h.execute(beh_exes)
+        diffs = []
+        for x in beh_exes:
+            if x.expect is not None:
+                d = compare(x)
+                if d is not None:
+                    diffs.append((x, d))
+        # ---- the verdict: every execution is judged by the trace specification
+        judge.judge(beh_exes, "sc")
+        judge.judge(rnd, "cs")
+        # ---- the models themselves
+        check_models(ctx, models, plan["jobs"])
+    finally:
+        models.join()
+    allx = cex + beh_exes + rnd
+    ctx.traces = judge.accepted
+    ctx.evaluations += len(allx)
+    ctx.extra.update({
+        "model_behaviours_replayed": nbeh,
+        "counterexample_behaviours_replayed": len(cex),
+        "random_scripts": len(rnd),
+        "executions_on_real_code": len(allx),
+        "executions_accepted_by_trace_spec": judge.accepted,
+        "of_which_shortened_by_quarantine": judge.shortened,
+        "events_validated": judge.events,
+        "harness_commands_run": h.commands_run,
+        "commands_dropped_as_malformed": sum(1 for e in allx for r in e.results if r["r"] == "bad"),
+        "behaviours_differing_from_prediction": len(diffs),
+        "sanitizer_crash_or_hang_reports": len(h.crashes),
+        "scripts_not_executed_after_repeated_crashes": h.not_executed,
+        "manager_configurations": [c["name"] for c in CONFIGS],
+        "quarantine_rules": ["%s %s->%s" % r for r in judge.rules],
+        "keys_reported": sorted(judge.reported),
+    })
+    ops = {}
+    for e in allx:
+        for c, r in zip(e.script, e.results):
+            if r["r"] != "bad":
+                k = c["op"] + ":" + ("ok" if r["r"] == "ok" else r["r"])
+                ops[k] = ops.get(k, 0) + 1
+    ctx.extra["calls_by_result"] = dict(sorted(ops.items()))
+    if diffs:
+        x, d = diffs[0]
+        ctx.extra["first_difference"] = {"cfg": x.cfg["name"], "script": [cmd_text(c) for c in x.script[:d + 1]],
+                                        "predicted": {k: x.expect[d].get(k) for k in ("res", "n", "b")},
+                                        "got": x.results[d]}
+        if not ctx.violations and not ctx.known_hits:
+            ctx.extra["model_drift"] = True
+            ctx.notes.append("real code differs from a prediction of the model without leaving the abstract "
+                             "specification (e.g. a grant decision or a room): recorded, not a violation")
+    for x in beh_exes:
+        if x.expect is not None and 6 <= len(x.script) <= 16:
+            ctx.sample({"source": x.source, "manager": x.cfg["name"], "script": [cmd_text(c) for c in x.script],
+                        "predicted": [[q.get("res"), q.get("n"), q.get("b")] for q in x.expect],
+                        "got": [[r["r"], r["n"], r["b"]] for r in x.results]}, limit=2)
+            break
+    for x in rnd[:1]:
+        ctx.sample({"source": x.source, "manager": x.cfg["name"], "script": x.text()[:14],
+                    "events": x.events()[:10]}, limit=3)
+    ctx.extra["wall_s_of_parts"] = {"total": round(time.time() - t0, 1)}
+    return judge
+
+
+def replay_file(ctx, rp, pid):
+    """bin/check <pid> --replay file: re-run the stored script"""
+    h = Harness(ctx)
+    cfg = rp["replay"]["cfg"]
+    x = Exe(cfg, [text_cmd(t) for t in rp["replay"]["script"]], "replay")
+    if not h.execute([x]):
+        raise vlib.ToolError("replay script was not executed")
+    rej = ctx.validate_histories(TRACE[0], TRACE[1], [x.events()], tag="replay")
+    if rej:
+        ev = x.events()
+        print("VIOLATION property=%s replay reproduced: line %d %s" % (pid, rej[0][1], json.dumps(ev[min(rej[0][1], len(ev)) - 1])))
+        return 1
+    print("OK property=%s replay accepted" % pid)
+    return 0
